@@ -365,11 +365,17 @@ class Sampler():
                     if key in group:
                         setattr(self, key, np.array(group[key]))
 
-                self.bounds = [
-                    UnitCube.read(fstream['bound_0'], rng=self.rng), ]
-                for i in range(1, len(self.shell_n)):
-                    self.bounds.append(NautilusBound.read(
-                        fstream['bound_{}'.format(i)], rng=self.rng))
+                # The first bound is the unit cube unless its shell was empty
+                # at the end of the exploration phase and removed.
+                self.bounds = []
+                for i in range(len(self.shell_n)):
+                    group_i = fstream['bound_{}'.format(i)]
+                    if group_i.attrs['type'] == 'UnitCube':
+                        self.bounds.append(
+                            UnitCube.read(group_i, rng=self.rng))
+                    else:
+                        self.bounds.append(
+                            NautilusBound.read(group_i, rng=self.rng))
 
     def run(self, f_live=0.01, n_shell=1, n_eff=10000, n_like_max=np.inf,
             discard_exploration=False, timeout=np.inf, verbose=False):
